@@ -11,8 +11,8 @@ Both are the executable objects the correspondence runs use (`drv_c09`).
 
 What is NOT a theorem here (compared only, see checks/c09.py and `DoraModel/Wait/MtxCheck.lean`): the
 no-lost-wake-up invariant J for the MUTEX of DESIGN A.3 and the queue/flag consistency Q are evaluated on every
-model state reached while accepting the traces of the real code, but their inductive proofs are not done (a
-theorem `no_lost_wakeup` for the mutex is therefore absent).  Proved: `mutual_exclusion`, `lock_word_free_iff`,
+model state reached while accepting the traces of the real code, but their inductive proofs are not done
+(there is therefore no `no_lost_wakeup` statement for the mutex).  Proved: `mutual_exclusion`, `lock_word_free_iff`,
 `join_after_stop`, `notify_without_waiter_no_effect`, W for the condition (`condition_waiters_cover_queue`) and
 S (`no_lost_signal`).  Atomic exchange /
 compare-exchange / fetch-add are single steps of the model by construction (their indivisibility in compiled
